@@ -407,20 +407,20 @@ def strategy(name):
 NT = ("non-trivial = some goal state with >= 2 constrained attributes (time included) fails in exactly one attribute and "
       "the region is not reached, or the region is reached with the orientation outside [a, b] before wrapping")
 FACETS = [
-    Facet("kinematic", check_case, strategy=strategy("kinematic"), quick=7000, thorough=250000,
+    Facet("kinematic", check_case, strategy=strategy("kinematic"), quick=7000, thorough=250000, max_shrink_s=15,
           rule="1-3 goal states (rect/circle/polygon/group positions, any arcs, velocity intervals) x 1-4 kinematic "
                "query states (Initial/KS/KST/ST/STD/ExtendedPM/custom with orientation) placed relative to a goal "
                "state; " + NT),
-    Facet("point-mass", check_case, strategy=strategy("point-mass"), quick=7000, thorough=250000,
+    Facet("point-mass", check_case, strategy=strategy("point-mass"), quick=7000, thorough=250000, max_shrink_s=15,
           rule="same regions x PMState / custom (velocity, velocity_y) states: speed = hypot, heading = atan2 in all "
                "four quadrants and on the axes; " + NT),
-    Facet("lanelet-goal", check_case, strategy=strategy("lanelet-goal"), quick=4000, thorough=120000,
+    Facet("lanelet-goal", check_case, strategy=strategy("lanelet-goal"), quick=4000, thorough=120000, max_shrink_s=15,
           rule="goal positions given as 1-3 lanelets (free or chained) built as the reader does, all query classes; "
                + NT),
-    Facet("angle-intervals", check_case, strategy=strategy("angle-intervals"), quick=6000, thorough=200000,
+    Facet("angle-intervals", check_case, strategy=strategy("angle-intervals"), quick=6000, thorough=200000, max_shrink_s=15,
           rule="orientation-centred regions: arcs longer than pi, across +-pi, zero length, int ends; int-valued and "
                "2pi-shifted query values; " + NT),
-    Facet("goal-reached", check_case, strategy=strategy("goal-reached"), quick=6000, thorough=200000,
+    Facet("goal-reached", check_case, strategy=strategy("goal-reached"), quick=6000, thorough=200000, max_shrink_s=15,
           rule="PlanningProblem.goal_reached on trajectories of 1-8 states (one class, consecutive steps) plus "
                "is_reached per state; " + NT),
 ]
